@@ -171,6 +171,9 @@ pub struct World {
     pub log: Vec<Ev>,
     /// index (within the current transaction) of the MsgTransfer whose submission fails
     pub fault_submit: Option<u32>,
+    /// index of the MsgTransfer that is executed but whose response carries no data (a host that does
+    /// not return message responses to `reply`)
+    pub fault_nodata: Option<u32>,
     pub transfers_this_tx: u32,
     /// the channel whose vouchers are the staked-asset denom
     pub canonical_channel: String,
@@ -220,6 +223,7 @@ impl World {
             native: BTreeMap::new(),
             log: Vec::new(),
             fault_submit: None,
+            fault_nodata: None,
             transfers_this_tx: 0,
             canonical_channel: channel.to_string(),
             staked_denom: ibc_denom_for(channel),
@@ -330,6 +334,7 @@ impl World {
         self.tx_index = txi + 1;
         self.tx_counter = txc;
         self.fault_submit = None;
+        self.fault_nodata = None;
         self.log.clear();
         out
     }
@@ -600,7 +605,12 @@ impl World {
             return Ok(Some(vec![]));
         }
         if url == "/ibc.applications.transfer.v1.MsgTransfer" {
-            return self.ibc_transfer(contract, &f, raw).map(Some);
+            let idx = self.transfers_this_tx;
+            let r = self.ibc_transfer(contract, &f, raw)?;
+            if self.fault_nodata == Some(idx) {
+                return Ok(None);
+            }
+            return Ok(Some(r));
         }
         if url == "/cosmwasm.wasm.v1.MsgExecuteContract" {
             let sender = prim::get_str(&f, 1).ok_or_else(bad)?;
